@@ -145,7 +145,16 @@ def check_reach(acc, ci):
 
 # --------------------------------------------- StartProportionalToAngularPosition
 def check_prop(acc, ci):
+    for i0_zero, pmin in ((False, None), (False, 0.6), (True, 0.6), (True, None)):
+        check_prop_variant(acc, ci, i0_zero, pmin)
+
+
+def check_prop_variant(acc, ci, i0_zero, pmin):
+    """pmin: the optional `pwm_min` parameter; documented to be used ONLY when the computed candidate is null
+    (no-load current 0 and load 0), in which case it is required."""
     spec = spec_of(ci)
+    if i0_zero:
+        spec['elements'][0] = dict(spec['elements'][0], i0=[0, 'A'])
     chain = sim.chain_ref(spec)
     eta = eta_total(chain)
     n = chain.n
@@ -153,18 +162,26 @@ def check_prop(acc, ci):
     for tgt, g, lf, j in itertools.product(targets, [2, 3.5, 1.0001], [0.0, 0.1, 0.3], range(n)):
         T = si.si(tgt[0], 'AngularPosition', tgt[1])
         cand = 1 / eta * lf * (chain.imax - chain.i0) / chain.imax + chain.i0 / chain.imax
-        dmin_doc = g * cand
+        dmin_doc = g * cand if cand != 0 else pmin
         proposals = {}
         for th in (0.0, -0.5 * T, 0.3 * T, T - 1e-6 * T, T + 1e-6 * T, 2 * T):
-            case = {'kind': 'prop', 'chain': ci, 'target': tgt, 'g': g, 'load_frac': lf, 'enc': j, 'theta': th}
+            case = {'kind': 'prop', 'chain': ci, 'target': tgt, 'g': g, 'load_frac': lf, 'enc': j, 'theta': th,
+                    'i0_zero': i0_zero, 'pwm_min': pmin}
             m = sim.Model(spec)
             rh.set_state(m, chain, 0.0, th / chain.up[j], 0.0, motor_load=lf * chain.Tmax)
+            kw = {} if pmin is None else {'pwm_min': pmin}
             rule = StartProportionalToAngularPosition(encoder=AbsoluteRotaryEncoder(m.elements[j]), powertrain=m.pt,
                                                       target_angular_position=AngularPosition(*tgt),
-                                                      pwm_min_multiplier=g)
+                                                      pwm_min_multiplier=g, **kw)
             acc.transitions += 1
             try:
                 got = rule.apply()
+            except ValueError as ex:
+                if dmin_doc is None:
+                    acc.outcomes[('prop', 'missing-pwm_min-documented-error')] += 1
+                    continue
+                acc.violation('C15/StartProportional/exception/ValueError', 'apply does not raise', case, {'exc': repr(ex)[:200]})
+                continue
             except Exception as ex:
                 acc.violation(f'C15/StartProportional/exception/{type(ex).__name__}', 'apply does not raise', case, {'exc': repr(ex)[:200]})
                 continue
@@ -180,9 +197,13 @@ def check_prop(acc, ci):
                 acc.violation('C15/StartProportional/window', 'applicable while theta <= target', case, {'theta': th, 'target': T})
                 continue
             dmin = proposals.get(0.0)
+            if dmin_doc is None:
+                acc.violation('C15/StartProportional/missing-pwm_min-accepted', 'a null candidate without pwm_min is an error', case, {'got': got})
+                continue
             if th == 0.0:
                 if not si.close(got, dmin_doc, 1e-9, 1.0):
-                    acc.violation(f'C15/StartProportional/minimum-duty/{tag}', 'D_min = g * documented candidate (no history)', case,
+                    acc.violation(f'C15/StartProportional/minimum-duty/{tag}' + ('/pwm_min-given' if pmin is not None else ''),
+                                  'D_min = g * documented candidate; the pwm_min parameter only when the candidate is null', case,
                                   {'got': got, 'expected': dmin_doc})
             elif dmin is not None:
                 exp = (1 - dmin) * th / T + dmin
